@@ -67,6 +67,12 @@ SHAPES["expression"] = """
 ex:XS a sh:NodeShape ; sh:targetClass ex:P ; sh:expression [ sh:path ex:flag ] ;
   sh:property [ sh:path ex:n ; sh:maxInclusive 9 ; sh:expression [ sh:path ex:flag ] ] .
 """
+# string constraints whose compiled form depends on two declarations (sh:pattern and sh:flags)
+SHAPES["pattern"] = """
+ex:PT a sh:NodeShape ; sh:targetClass ex:P ;
+  sh:property [ sh:path ( ex:addr ex:street ) ; sh:pattern "^high" ; sh:flags "i" ] ;
+  sh:property [ sh:path ex:tag ; sh:pattern "^X" ; sh:languageIn ( "en" ) ] .
+"""
 SHAPES["usesfn"] = """
 ex:prefixes a owl:Ontology ; sh:declare [ sh:prefix "ex" ; sh:namespace "http://ex.org/"^^xsd:anyURI ] .
 ex:US a sh:NodeShape ; sh:targetClass ex:P ;
@@ -307,6 +313,20 @@ def gen_themed(rng, theme):
             ops.append(("call", "validate", ("slot", "D0"), ("slot", "S0") if rng.random() < 0.7 else ("text", PFX + SHAPES["expression"]), None, {"advanced": rng.random() < 0.5}, None))
             ops += maybe_fail() if rng.random() < 0.3 else []
         ops.append(plain())
+    elif theme == "pattern":
+        # the same pattern text validated with different flags, on the same and on new shapes graph objects
+        ops.append(("alloc", "S0", "shapes", SHAPES["pattern"]))
+        ops.append(first())
+        for _ in range(rng.choice([1, 2, 3])):
+            r_ = rng.random()
+            if r_ < 0.5:
+                ops.append(("edit_shapes", "flags", rng.randrange(1000)))
+            elif r_ < 0.7:
+                ops.append(("edit_shapes", "pattern", rng.randrange(1000)))
+            else:
+                ops.append(("realloc", "S0", "shapes", SHAPES["pattern"].replace('sh:flags "i"', rng.choice(['', 'sh:flags "x"', 'sh:flags "i"']).strip() or 'sh:minLength 1')))
+            ops += maybe_fail() if rng.random() < 0.2 else []
+            ops.append(plain() if rng.random() < 0.7 else ("call", "validate", ("slot", "D0"), ("text", PFX + SHAPES["pattern"].replace(' ; sh:flags "i"', "")), None, {}, None))
     elif theme == "imports":
         # documents that owl:import one another, loaded with do_owl_imports: what one call imported must not be
         # remembered by the next (a document that was an importer before is imported again)
@@ -338,7 +358,7 @@ def gen_themed(rng, theme):
     return ops
 
 
-THEMES = ["stale_data", "stale_shapes", "stale_validator", "reuse", "globals", "modes", "imports", "mixed", "mixed"]
+THEMES = ["stale_data", "stale_shapes", "stale_validator", "reuse", "globals", "modes", "imports", "pattern", "mixed", "mixed"]
 
 
 def gen_history(seed, index):
@@ -421,7 +441,7 @@ def gen_history(seed, index):
             if e < 0.35:
                 ops.append(("edit_data", rng.choice(["city", "street", "n", "tag", "flag", "drop_addr"]), rng.randrange(1000)))
             elif e < 0.7:
-                ops.append(("edit_shapes", rng.choice(["mincount", "ask", "message", "limit", "select", "datatype", "hasvalue"]), rng.randrange(1000)))
+                ops.append(("edit_shapes", rng.choice(["mincount", "ask", "message", "limit", "select", "datatype", "hasvalue", "flags", "pattern"]), rng.randrange(1000)))
             elif e < 0.85:
                 # the shapes graph object is dropped and another one (maybe at the same address) takes its place
                 state["S0"] = rng.choice(fams)
@@ -488,6 +508,16 @@ def edit_shapes(g, what, k):
     elif what == "hasvalue":
         for s in list(g.subjects(SH.hasValue, None)):
             replace(s, SH.hasValue, Literal(k % 9))
+    elif what == "flags":
+        # the same sh:pattern text with other (or no) sh:flags
+        for s in list(g.subjects(SH.pattern, None)):
+            g.remove((s, SH.flags, None))
+            f = ["", "i", "x", "is"][k % 4]
+            if f:
+                g.add((s, SH.flags, Literal(f)))
+    elif what == "pattern":
+        for s in list(g.subjects(SH.pattern, None)):
+            replace(s, SH.pattern, Literal(["^high", "^h.gh", "st$", "^HIGH"][k % 4]))
 
 
 def resolve(slots, arg, outdir=None):
